@@ -330,10 +330,25 @@ TYPE_TOKS = {n: TypeTok(n) for n in ("int", "float", "bool", "str", "tuple", "li
 
 
 class Frame:
-    def __init__(self, func: FuncRef, selfobj=None):
+    def __init__(self, func: FuncRef, selfobj=None, owner=None):
         self.func = func
         self.selfobj = selfobj
-        self.loop_ordinal = 0
+        self._loop_ordinal = 0
+        # loops of a callee that was inlined WITHOUT being named by the contract (a helper extracted by a refactoring) are
+        # numbered with the function that called it, in execution order, and looked up under that function's loop contracts
+        self.owner = owner
+
+    @property
+    def loop_frame(self):
+        return self.owner.loop_frame if self.owner is not None else self
+
+    @property
+    def loop_ordinal(self):
+        return self.loop_frame._loop_ordinal
+
+    @loop_ordinal.setter
+    def loop_ordinal(self, v):
+        self.loop_frame._loop_ordinal = v
 
 
 class Interp:
@@ -367,11 +382,11 @@ class Interp:
             raise Unsupported(f"no class {name} in {relpath}")
         return c
 
-    def run(self, fref: FuncRef, args=(), kwargs=None, selfobj=None):
+    def run(self, fref: FuncRef, args=(), kwargs=None, selfobj=None, auto=False):
         """Execute the body of fref symbolically (never through its contract)."""
         kwargs = dict(kwargs or {})
         env = self._bind(fref, list(args), kwargs, selfobj)
-        fr = Frame(fref, selfobj)
+        fr = Frame(fref, selfobj, owner=self.frames[-1] if (auto and self.frames) else None)
         self.frames.append(fr)
         self.depth += 1
         if self.depth > self.max_depth:
@@ -659,9 +674,9 @@ class Interp:
         fr.loop_ordinal += 1
         items = self.concrete_iter(it)
         if items is None:
-            spec = self.loop_specs.get((fr.func.key, ordinal))
+            spec = self.loop_specs.get((fr.loop_frame.func.key, ordinal))
             if spec is None:
-                raise Unsupported(f"loop #{ordinal} of {fr.func.qual} has a symbolic trip count and no invariant")
+                raise Unsupported(f"loop #{ordinal} of {fr.loop_frame.func.qual} has a symbolic trip count and no invariant")
             return spec(self, st, env, fr, it)
         for x in items:
             self.assign(st.target, x, env, fr)
@@ -698,7 +713,7 @@ class Interp:
     def st_While(self, st, env, fr):
         ordinal = fr.loop_ordinal
         fr.loop_ordinal += 1
-        spec = self.loop_specs.get((fr.func.key, ordinal))
+        spec = self.loop_specs.get((fr.loop_frame.func.key, ordinal))
         if spec is not None:
             return spec(self, st, env, fr, None)
         # bounded unrolling only when the condition is decided concretely
@@ -1373,7 +1388,7 @@ class Interp:
         # (typically a helper that a later change of the code started to call): its current body is executed in place and
         # recorded as part of the verified text of this unit, instead of giving up with a checker error
         self.auto_inlined.add(fref.key)
-        return self.run(fref, args, kwargs, selfobj)
+        return self.run(fref, args, kwargs, selfobj, auto=True)
 
 
 class _MaskedSource:
